@@ -204,13 +204,13 @@ def is_product(ctx, s):
 
 
 @specfn('old_objects_unchanged_except_dict')
-def old_objects_unchanged_except_dict(ctx, d):
-    """every heap family agrees with the entry state on objects allocated at entry, except the dict families at `d`
-    and the (ghost) key list of `d`"""
+def old_objects_unchanged_except_dict(ctx, *ds):
+    """every heap family agrees with the entry state on objects allocated at entry, except the dict families at the
+    dicts `ds` and their (ghost) key lists"""
     st, old = ctx.st, ctx.entry
     r = z3.Int(fresh_name('r'))
     conj = []
-    kl_old = old.dict_keylist(d)
+    kls = [old.dict_keylist(d) for d in ds]
     for name in sorted(FAM_SORTS):
         now, then = _fam_now(st, name), _fam_now(old, name)
         if now is then or z3.eq(now, then) or name == 'tyof':
@@ -220,11 +220,12 @@ def old_objects_unchanged_except_dict(ctx, d):
             continue
         guard = z3.And(r > 0, r < old.alloc)
         if name.startswith('dh.') or name.startswith('dv.') or name == 'dk':
-            guard = z3.And(guard, r != d.t)
+            guard = z3.And(guard, *[r != d.t for d in ds])
         if name.startswith('len.') or name.startswith('el.'):
-            guard = z3.And(guard, r != kl_old.t)
+            guard = z3.And(guard, *[r != kl.t for kl in kls])
         conj.append(forall([r], z3.Implies(guard, z3.Select(now, r) == z3.Select(then, r)), patterns=[z3.Select(now, r)]))
     return mk_bool(z3.And(*conj) if conj else z3.BoolVal(True))
+
 
 TermText = z3.Function('term_text', z3.StringSort(), z3.StringSort())
 TermSign = z3.Function('term_sign', z3.StringSort(), z3.RealSort())
